@@ -146,6 +146,16 @@ fn all_containers(bytes: &[u8], kvs: &[Kv], version: u64, auts: &[TableDfa], mma
         let f = Fst::new(bytes.to_vec()).map_err(e)?;
         let g = f.map_data(|v| v.into_boxed_slice()).map_err(e)?;
         n += exercise(&g, kvs, version, auts, false)?;
+        // map_data that hands an existing reader DIFFERENT bytes: same as opening them
+        let small = Fst::new(crate::codec::encode(&[(b"zz".to_vec(), 1), (b"zzz".to_vec(), 2)], &opts(3, Layout::Shared, false))).map_err(e)?;
+        n += exercise(&small.map_data(|_| bytes.to_vec()).map_err(e)?, kvs, version, auts, false)?;
+        let m0: Map<Vec<u8>> = Map::default();
+        n += exercise(m0.map_data(|_| bytes).map_err(e)?.as_fst(), kvs, version, auts, false)?;
+        let s0: Set<Vec<u8>> = Set::default();
+        n += exercise(s0.map_data(|_| Cow::Borrowed(bytes)).map_err(e)?.as_fst(), kvs, version, auts, false)?;
+        if Fst::new(bytes.to_vec()).map_err(e)?.map_data(|mut v| { v.truncate(9); v }).is_ok() {
+            return Err("map_data to 9 bytes of the file returned Ok".into());
+        }
         // Map / Set wrappers
         let m = Map::new(bytes).map_err(e)?;
         if m.stream().into_byte_vec() != kvs {
